@@ -35,4 +35,17 @@ PROPS = {
             "two names of one scope that become equal after case conversion are outside the supported subset (K3)",
         ],
     ),
+    "C10": dict(
+        coq_props=["Properties/C10.v"],
+        run_modules=["RunC10.v"],
+        harness_cmd="c10",
+        trusted_base=COMMON_TB + [
+            "Enums.v is a hand model of codegen/enums.rs (variant identifiers, both hand-written impls as arm lists) tied by RunC10.corr on the emitted item and on compiled round trips",
+            "meaning of the two emitted impls: `match` takes the first matching arm; `String` deserialisation accepts exactly JSON strings (validated against real rustc + serde_json through from_str and from_value)",
+            "rustc: an enum with duplicate variant identifiers does not compile (validated: such modules are observed as compile errors)",
+        ],
+        assumptions=[
+            "value names of one enum are distinct (GraphQL validity) and so are their Rust identifiers; collisions (`type`/`type_`, `foo_bar`/`fooBar` under normalization = rust, a value named `Other`) are the known class ident_collision",
+        ],
+    ),
 }
